@@ -159,7 +159,7 @@ Section Series.
           let m := (v1 - v0) / (x1 - x0) in
           if negb (nfinite m) then rest
           else if m =? n0 then x0 :: x1 :: rest
-          else (x0 + (level - v0) / m) :: rest
+          else nmin (nmax (x0 + (level - v0) / m) x0) x1 :: rest
         else rest
     | _, _ => []
     end.
